@@ -1160,6 +1160,76 @@ def inline_new_constants(tree: ast.Module, m: str) -> T.List[str]:
     return sorted(known)
 
 
+def unroll_literal_loops(tree: ast.Module, unchanged: T.Optional[T.Set[int]] = None) -> int:
+    """`for x in ("a", "b"): ...` over a short literal of constants, in a function that differs from the pinned one:
+    a first-match loop (`if test(x): ...; break`, optional `else`) becomes an if/elif chain, a loop without break/continue
+    becomes one copy of its body per element."""
+    import copy
+    count = 0
+
+    def subst(stmts: T.List[ast.stmt], name: str, const: ast.Constant) -> T.List[ast.stmt]:
+        class Sub(ast.NodeTransformer):
+            def visit_Name(self, node: ast.Name) -> ast.AST:
+                if node.id == name and isinstance(node.ctx, ast.Load):
+                    return ast.copy_location(ast.Constant(value=const.value), node)
+                return node
+        return [ast.fix_missing_locations(Sub().visit(copy.deepcopy(st))) for st in stmts]
+
+    def own_jumps(stmts: T.List[ast.stmt]) -> bool:
+        stack = list(stmts)
+        while stack:
+            n = stack.pop()
+            if isinstance(n, (ast.Break, ast.Continue)):
+                return True
+            if isinstance(n, (ast.For, ast.While, ast.FunctionDef, ast.AsyncFunctionDef, ast.ClassDef)):
+                continue
+            stack.extend(ast.iter_child_nodes(n))
+        return False
+
+    def visit_block(stmts: T.List[ast.stmt]) -> None:
+        nonlocal count
+        i = 0
+        while i < len(stmts):
+            st = stmts[i]
+            for fld in ("body", "orelse", "finalbody"):
+                sub = getattr(st, fld, None)
+                if isinstance(sub, list) and sub and isinstance(sub[0], ast.stmt):
+                    visit_block(sub)
+            for h in getattr(st, "handlers", []) or []:
+                visit_block(h.body)
+            if isinstance(st, ast.For) and isinstance(st.target, ast.Name) and isinstance(st.iter, (ast.Tuple, ast.List)) and 1 <= len(st.iter.elts) <= 6 \
+                    and all(isinstance(e, ast.Constant) for e in st.iter.elts) \
+                    and not any(isinstance(x, ast.Name) and x.id == st.target.id and isinstance(x.ctx, ast.Store) for b in st.body for x in ast.walk(b)):
+                name = st.target.id
+                body = st.body
+                if len(body) == 1 and isinstance(body[0], ast.If) and not body[0].orelse and body[0].body and isinstance(body[0].body[-1], ast.Break) \
+                        and not own_jumps(body[0].body[:-1]):
+                    chain: T.List[ast.stmt] = list(st.orelse)
+                    for e in reversed(st.iter.elts):
+                        t_, = subst([ast.Expr(value=body[0].test)], name, e)
+                        new_if = ast.If(test=t_.value, body=subst(body[0].body[:-1], name, e) or [ast.Pass()], orelse=chain)
+                        ast.copy_location(new_if, st)
+                        chain = [ast.fix_missing_locations(new_if)]
+                    stmts[i:i + 1] = chain
+                    count += 1
+                    i += len(chain)
+                    continue
+                if not st.orelse and not own_jumps(body):
+                    new: T.List[ast.stmt] = []
+                    for e in st.iter.elts:
+                        new += subst(body, name, e)
+                    stmts[i:i + 1] = new
+                    count += 1
+                    i += len(new)
+                    continue
+            i += 1
+    for fd in [n for n in ast.walk(tree) if isinstance(n, (ast.FunctionDef, ast.AsyncFunctionDef))]:
+        if unchanged and id(fd) in unchanged:
+            continue
+        visit_block(fd.body)
+    return count
+
+
 def _is_ref(e: ast.AST) -> bool:
     """A reference to a module / function / attribute chain, or a tuple of such (no calls, no computations)."""
     if isinstance(e, ast.Name):
@@ -1201,8 +1271,6 @@ def expand_table_dispatch(tree: ast.Module, unchanged: T.Optional[T.Set[int]] = 
             if isinstance(tg, ast.Name) and isinstance(val, ast.Dict) and val.keys and all(isinstance(k, ast.Constant) for k in val.keys) \
                     and all(_is_ref(v) for v in val.values) and stores.get(tg.id) == 1:
                 tables[tg.id] = val
-        if not tables and not any(isinstance(n, ast.Assign) and isinstance(n.value, ast.IfExp) and _is_ref(n.value.body) and _is_ref(n.value.orelse) for n in ast.walk(fd)):
-            continue
 
         def visit_block(stmts: T.List[ast.stmt]) -> None:
             nonlocal count
@@ -1245,6 +1313,25 @@ def expand_table_dispatch(tree: ast.Module, unchanged: T.Optional[T.Set[int]] = 
                         pending_tail = []
                 else:
                     pending_tail = []
+                # `if c: impl = A` / `else: impl = B` followed by calls through impl: the same expansion
+                if hit is None and isinstance(st, ast.If) and len(st.body) == 1 and len(st.orelse) == 1 and all(
+                        isinstance(b_, ast.Assign) and len(b_.targets) == 1 and isinstance(b_.targets[0], ast.Name) and _is_ref(b_.value) and not isinstance(b_.value, ast.Tuple)
+                        for b_ in (st.body[0], st.orelse[0])) and st.body[0].targets[0].id == st.orelse[0].targets[0].id and stores.get(st.body[0].targets[0].id) == 2:
+                    nm = st.body[0].targets[0].id
+                    uses = [x for x in ast.walk(fd) if isinstance(x, ast.Name) and x.id == nm and isinstance(x.ctx, ast.Load)]
+                    called = [x for x in ast.walk(fd) if (isinstance(x, ast.Call) and ((isinstance(x.func, ast.Name) and x.func.id == nm) or
+                              (isinstance(x.func, ast.Attribute) and isinstance(x.func.value, ast.Name) and x.func.value.id == nm)))]
+                    last = -1
+                    for j, r_ in enumerate(stmts[i + 1:]):
+                        if any(isinstance(x, ast.Name) and x.id == nm for x in ast.walk(r_)):
+                            last = j
+                    in_rest = sum(1 for r_ in stmts[i + 1:i + 2 + last] for x in ast.walk(r_) if isinstance(x, ast.Name) and x.id == nm and isinstance(x.ctx, ast.Load))
+                    if uses and len(called) == len(uses) and last >= 0 and in_rest == len(uses):
+                        fake = ast.Dict(keys=[ast.Constant(value=True), ast.Constant(value=False)], values=[st.body[0].value, st.orelse[0].value])
+                        tail = stmts[i + 2 + last:]
+                        del stmts[i + 2 + last:]
+                        hit = ([nm], fake, ast.Call(func=ast.Name(id="bool", ctx=ast.Load()), args=[st.test], keywords=[]), stmts[i + 1:], False)
+                        pending_tail = tail
                 if hit is None:
                     for fld in ("body", "orelse", "finalbody"):
                         sub = getattr(st, fld, None)
@@ -1336,12 +1423,15 @@ def normalise_program(trees: T.Dict[str, ast.Module]) -> T.Dict[str, int]:
     LAST_RUN["renames_undone"] = undo_renames(trees)
     LAST_RUN["local_renames_undone"] = undo_local_renames(trees)
     n_disp = 0
+    n_unrolled = 0
     for m, t in trees.items():
         known = baseline().get(m)
         if known:
             same = {id(fd) for q, fd in _qualnames(t).items() if known.get(q) and known[q] == body_hash(fd)}
             n_disp += expand_table_dispatch(t, same)
+            n_unrolled += unroll_literal_loops(t, same)
     LAST_RUN["dispatch_expanded"] = n_disp
+    LAST_RUN["literal_loops_unrolled"] = n_unrolled
     inliners: T.Dict[str, Inliner] = {}
     for m, tree in trees.items():
         known = dict(baseline().get(m, {}))
